@@ -339,8 +339,22 @@ def _eval_const(expr: str, env: dict):
         except (OverflowError, ZeroDivisionError) as exc:
             raise ValueError("constant expression cannot be folded") from exc
 
-    tree = ast.parse(expr, mode="eval")
-    return ev(tree.body)
+    try:
+        tree = ast.parse(expr, mode="eval")
+    except SyntaxError as exc:
+        raise ValueError("unsupported expression") from exc
+    result = ev(tree.body)
+    # Keep the constant environment bounded: values that could never be used on
+    # the device are not folded (and so cannot grow from line to line).
+    if isinstance(result, bool):
+        return result
+    if isinstance(result, int) and result.bit_length() > 4096:
+        raise ValueError("constant too large to fold")
+    if isinstance(result, float) and (result != result or result in (float("inf"), float("-inf"))):
+        raise ValueError("non-finite constant")
+    if isinstance(result, (str, list, tuple)) and len(result) > 4096:
+        raise ValueError("constant too large to fold")
+    return result
 
 
 def _to_c_expr(
@@ -427,6 +441,8 @@ def _to_c_expr(
         if isinstance(n, ast.Constant):
             if isinstance(n.value, bool):
                 return "true" if n.value else "false"
+            if isinstance(n.value, float) and (n.value != n.value or n.value in (float("inf"), float("-inf"))):
+                raise ValueError("non-finite float literals are not supported")
             if isinstance(n.value, (int, float)):
                 return str(int(n.value)) if isinstance(n.value, int) else str(n.value)
             if isinstance(n.value, str):
@@ -872,7 +888,10 @@ def _to_c_expr(
 
         raise ValueError("unsupported")
 
-    tree = ast.parse(expr, mode="eval")
+    try:
+        tree = ast.parse(expr, mode="eval")
+    except SyntaxError as exc:
+        raise ValueError("unsupported expression") from exc
     return emit(tree.body)
 
 
@@ -4227,6 +4246,15 @@ def _parse_simple_lines(
 
 def parse(src: str) -> Program:
     """Parse ``src`` into a :class:`~Reduino.transpile.ast.Program`."""
+
+    try:
+        return _parse_program(src)
+    except RecursionError as exc:
+        raise ValueError("source is nested too deeply to transpile") from exc
+
+
+def _parse_program(src: str) -> Program:
+    """Implementation of :func:`parse`."""
 
     # Text that is not Python is rejected up front (SyntaxError) instead of
     # having its unparseable lines silently ignored by the line-based passes.
